@@ -25,6 +25,10 @@ import (
 	"strings"
 )
 
+// maxImportedNodes is the limit for the total amount of nodes 'import'
+// directives can add to one configuration tree.
+const maxImportedNodes = 100000
+
 func (ctx *parseContext) expandImports(node Node, expansionDepth int) (Node, error) {
 	// Leave nil value as is because it is used as non-existent block indicator
 	// (vs empty slice - empty block).
@@ -56,6 +60,14 @@ func (ctx *parseContext) expandImports(node Node, expansionDepth int) (Node, err
 			subtree, err := ctx.resolveImport(child, child.Args[0], expansionDepth)
 			if err != nil {
 				return node, err
+			}
+
+			// A snippet that imports itself more than once doubles the tree
+			// on each pass, the depth check above is hit only after 2^255
+			// nodes are allocated.
+			ctx.importedNodes += len(subtree)
+			if ctx.importedNodes > maxImportedNodes {
+				return node, NodeErr(child, "hit import expansion limit")
 			}
 
 			newChildrens = append(newChildrens, subtree...)
